@@ -15,7 +15,7 @@
 (* specification continues from the one the code took.                                             *)
 (* Integer arguments use -1 for "not given"; name parts are tagged ("s:ctrl", "i:0") so that the   *)
 (* string "0" and the integer 0 stay distinct.                                                     *)
-EXTENDS Util, Integers, SequencesExt, MemoryMapAbsOps
+EXTENDS Util, Integers, SequencesExt, MemoryMapAbsOps, NamesAbsOps
 
 MmInit(cfg) == [maps |-> <<>>]
 
@@ -191,6 +191,19 @@ AbsStepOK(st, st2) ==
     ELSE StepRel(Pow2(st.maps[m].aw), AbsProj(st.maps[m]), st.maps[m].cursor, st.maps[m].frozen = 1,
                  AbsProj(st2.maps[m]), st2.maps[m].cursor, st2.maps[m].frozen = 1)
 
+\* ---- refinement of the abstract name space (NamesAbs.tla; proved prefix-free for every forest by TLAPS) ----
+NamesOf(maps) == [m \in 1..Len(maps) |-> Visible(maps, m)]
+FrzOf(maps) == [m \in 1..Len(maps) |-> maps[m].frozen = 1]
+AnonOf(maps) == [m \in 1..Len(maps) |-> {it.id : it \in {x \in maps[m].items : x.kind = "win" /\ x.name = <<>>}}]
+AbsNamesOK(st, st2) ==
+  IF Len(st2.maps) # Len(st.maps)
+  THEN \* a new map: empty name space, everything else untouched
+       /\ Len(st2.maps) = Len(st.maps) + 1
+       /\ \A m \in 1..Len(st.maps) : st2.maps[m] = st.maps[m]
+       /\ Visible(st2.maps, Len(st2.maps)) = {} /\ st2.maps[Len(st2.maps)].frozen = 0
+  ELSE NamesRel(1..Len(st.maps), Conflict, NamesOf(st.maps), FrzOf(st.maps), AnonOf(st.maps),
+                NamesOf(st2.maps), FrzOf(st2.maps), AnonOf(st2.maps))
+
 MmCheck(cfg, st, c, o) ==
   LET maps == st.maps IN
   IF c.call = "lookup" THEN CheckLookup(st, c, o)
@@ -207,5 +220,6 @@ MmCheck(cfg, st, c, o) ==
   ELSE IF c.ok = 1 /\ c.call = "align_to"
           /\ c.ret # AlignUp(maps[c.m].cursor, Max2(c.al, maps[c.m].al)) THEN "align_to result"
   ELSE IF ~AbsStepOK(st, MmStep(cfg, st, c)) THEN "abstract allocator step (MemoryMapAbs)"
+  ELSE IF ~AbsNamesOK(st, MmStep(cfg, st, c)) THEN "abstract name-space step (NamesAbs)"
   ELSE CheckViews(MmStep(cfg, st, c), o)
 ====
